@@ -1,7 +1,7 @@
 (* C06 — Every valid RFC 9535 query is accepted by the parser.  Statements only.
    The whole-language statement is kept visible and is NOT proved (partial): *)
 From Coq Require Import List NArith ZArith Bool.
-From JP Require Import Base Ast Peg Dec2Bin Known Build Concrete BuildFacts NormPath Reference NpParse NpBuild FragParse FragBuild FragWs FragWsBuild.
+From JP Require Import Base Ast Peg Dec2Bin Known Build Concrete BuildFacts NormPath Reference NpParse NpBuild FragParse FragBuild FragWs FragWsBuild GenParse GenBuild FilterParse FilterBuild FilterFacts.
 From JP.gen Require Import Grammar.
 Import ListNotations.
 
@@ -84,6 +84,38 @@ Example C06_blanks_example :
   /\ parse_query (36%N :: lq_text q) = POk (query_ast (lq_strip q))
   /\ parse_query (36%N :: lq_text q) = parse_query (36%N :: segs_text (lq_strip q)).
 Proof. vm_compute. repeat split; reflexivity. Qed.
+
+(* ... and WITH FILTERS, nested to any depth n.  [SelT n] are the selectors of nesting depth n: a plain
+   selector, or a filter selector ?e whose logical expression e (FilterParse.xatom: an or-list of and-lists of
+   atoms) combines existence tests @q / $q, comparisons between singular queries and int / string / true /
+   false / null literals with the six operators, negation, parentheses, && and ||, where the queries q of the
+   tests are again segment lists over [SelT (n-1)].  For every such query in canonical spelling the PEG
+   interpreter over the grammar of this run and the model of parser.rs return exactly its AST
+   (FilterFacts.parse_filter).  The proof goes through the ordered choices of the grammar as the parser does:
+   e.g. at every existence test, `comp_expr` is tried first, reads the singular prefix of the query as a
+   comparable, finds no operator and is abandoned (FilterParse.comp_expr_fails_test).  Not covered: function
+   calls, float literals, escapes, double quotes, blank space inside filters. *)
+Theorem C06_with_filters_partial : forall n (q : list (gseg (SelT n))),
+  Forall (gseg_ok (SelT n) (sokT n)) q -> Forall (gseg_good (SelT n) (sgoodT n)) q ->
+  parse_query (36%N :: gsegs_text (SelT n) (stextT n) q)
+  = POk (segments_of_list (map (gseg_ast (SelT n) (sastT n)) q)).
+Proof. exact parse_filter. Qed.
+Print Assumptions C06_with_filters_partial.
+
+(* $[?@.a==1&&!(@.b||$.c[0])].x[?@['k']<'z'] *)
+Definition ex_e1 : list (list (xatom (SelT 0))) :=
+  [[XCmp _ OpEq (XCSq false [SQShort [97]%N]) (XCLit (XInt 1%Z));
+    XParen _ true [[XTest _ false false [GShort _ [98]%N]];
+                   [XTest _ false true [GShort _ [99]%N; GBracket _ (FIndex 0%Z) []]]]]].
+Definition ex_e2 : list (list (xatom (SelT 0))) :=
+  [[XCmp _ OpLt (XCSq false [SQName [107]%N]) (XCLit (XStr [122]%N))]].
+Definition ex_q1 : list (gseg (SelT 1)) := [GBracket _ (inr ex_e1) []; GShort _ [120]%N; GBracket _ (inr ex_e2) []].
+Example C06_with_filters_example :
+  gsegs_text (SelT 1) (stextT 1) ex_q1
+  = [91;63;64;46;97;61;61;49;38;38;33;40;64;46;98;124;124;36;46;99;91;48;93;41;93;46;120;91;63;64;91;39;107;39;93;60;39;122;39;93]%N
+  /\ parse_query (36%N :: gsegs_text (SelT 1) (stextT 1) ex_q1)
+     = POk (segments_of_list (map (gseg_ast (SelT 1) (sastT 1)) ex_q1)).
+Proof. vm_compute. split; reflexivity. Qed.
 
 (* the parser model, over the grammar generated from the .pest file of this run, accepts the
    RFC's own examples and builds the reference AST (evaluated inside Coq: a test, not the
